@@ -1,0 +1,340 @@
+//go:build verif
+
+package txcache
+
+// Contracts for govc (/verif). Comment-only file: no executable code, not part of the default build.
+
+/*@
+// ================= C26: transaction selection respects nonce order =================
+
+// collaborators reached through interfaces: getters are functions of the transaction value
+func (tx data.TransactionHandler) GetNonce() (r uint64)
+  pure
+func (tx data.TransactionHandler) GetGasPrice() (r uint64)
+  pure
+
+spec fn itemOf(e *list.Element) *WrappedTransaction = payload(e.Value, ptr_WrappedTransaction)
+spec fn holdsTx(e *list.Element) bool = typeIs(e.Value, ptr_WrappedTransaction) && itemOf(e) != nil && itemOf(e).Tx != nil
+spec fn nonceOf(e *list.Element) uint64 = itemOf(e).Tx.GetNonce()
+
+// the library's Element.Next(): nil at the end of the list (raw link reaches the sentinel = owner)
+spec fn nxt(e *list.Element) *list.Element = (owner(e) == nil || next(e) == owner(e)) ? nil : next(e)
+
+// walk(s, k): the element reached from s by k calls of Next() (nil once the end is passed).
+// (two symbols: every unfolding step is triggered by a term of the other symbol, no matching loop)
+spec fn walkNext(s *list.Element, k int) *list.Element
+  axiom k >= 0 ==> walkNext(s, k) == (walk(s, k) == nil ? nil : nxt(walk(s, k)))
+spec fn walk(s *list.Element, k int) *list.Element
+  axiom walk(s, 0) == s
+  axiom k >= 0 ==> walk(s, k+1) == walkNext(s, k)
+
+// sender list: well-formed container/list whose elements all carry a *WrappedTransaction with a transaction inside
+spec fn senderListOk(ls *txListForSender) bool = ls.items != nil && wfList(ls.items) && llen(ls.items) <= 9223372036854775807 && (forall e *list.Element :: inList(ls.items, e) ==> holdsTx(e))
+
+// order of a sender's list (C25): nonce ascending, for equal nonces gas price descending
+spec fn gasPriceOf(e *list.Element) uint64 = itemOf(e).Tx.GetGasPrice()
+spec fn orderedPair(a *list.Element, b *list.Element) bool = nonceOf(a) < nonceOf(b) || (nonceOf(a) == nonceOf(b) && gasPriceOf(a) >= gasPriceOf(b))
+spec fn listOk(items *list.List) bool = items != nil && wfList(items) && llen(items) <= 9223372036854775807 && (forall e *list.Element :: inList(items, e) ==> holdsTx(e))
+spec fn sortedItems(items *list.List) bool = forall e *list.Element :: inList(items, e) && next(e) != owner(e) ==> orderedPair(e, next(e))
+spec fn sortedList(ls *txListForSender) bool = sortedItems(ls.items)
+
+// MONITOR INVARIANT of a sender's list: holds whenever listForSender.mutex is free; assumed after Lock/RLock, proved
+// before every Unlock. Callers of the locking methods (AddTx, RemoveTx, selectBatchTo, ...) need not establish it.
+struct txListForSender
+  lock_invariant mutex: list-ok: listOk(items)
+  lock_invariant mutex: sorted-by-nonce-then-price: sortedItems(items)
+
+// the sender's first pooled nonce is above its account nonce (as seen by hasInitialGap)
+spec fn initialGap(ls *txListForSender) bool = flagSet(ls.accountNonceKnown) && front(ls.items, ls.copyBatchIndex) != nil && nonceOf(front(ls.items, ls.copyBatchIndex)) > ls.accountNonce.value
+
+spec fn inGrace(n int64) bool = n >= senderGracePeriodLowerBound && n <= senderGracePeriodUpperBound
+
+// state kept between the batches of one selection: the cursor is in the list (or nil = exhausted) and, when it is not the
+// first element, copyPreviousNonce is the nonce of the element just before it (the last one copied)
+spec fn cursorOk(ls *txListForSender) bool = (ls.copyBatchIndex == nil || inList(ls.items, ls.copyBatchIndex)) && (ls.copyBatchIndex != nil && ls.copyBatchIndex != front(ls.items, ls.copyBatchIndex) ==> ls.copyPreviousNonce == nonceOf(prev(ls.copyBatchIndex)))
+
+func (listForSender *txListForSender) verifyInitialGapOnSelectionStart() (r bool)
+  requires senderListOk(listForSender)
+  requires failed-selections-fit: listForSender.numFailedSelections.value < 9223372036854775807
+  ensures  is-initial-gap: r == old(initialGap(listForSender))
+  ensures  failed-count: r ? listForSender.numFailedSelections.value == old(listForSender.numFailedSelections.value) + 1 : listForSender.numFailedSelections.value == 0
+  ensures  sweepable-only-set: old(flagSet(listForSender.sweepable)) ==> flagSet(listForSender.sweepable)
+  assigns  listForSender.numFailedSelections, listForSender.sweepable
+
+func (listForSender *txListForSender) hasInitialGap() (r bool)
+  requires senderListOk(listForSender)
+  ensures  r == initialGap(listForSender)
+  assigns  nothing
+
+func (listForSender *txListForSender) getLowestNonceTx() (r *WrappedTransaction)
+  requires senderListOk(listForSender)
+  ensures  is-first: r == (front(listForSender.items, listForSender.copyBatchIndex) == nil ? nil : itemOf(front(listForSender.items, listForSender.copyBatchIndex)))
+  ensures  carries-tx: r != nil ==> r.Tx != nil
+  ensures  nil-iff-empty: (r == nil) == (front(listForSender.items, listForSender.copyBatchIndex) == nil)
+  assigns  nothing
+
+func (listForSender *txListForSender) isGracePeriodExceeded() (r bool)
+  ensures r == (listForSender.numFailedSelections.value > senderGracePeriodUpperBound)
+  assigns nothing
+
+func (listForSender *txListForSender) isInGracePeriod() (r bool)
+  ensures r == inGrace(listForSender.numFailedSelections.value)
+  assigns nothing
+
+func (listForSender *txListForSender) selectBatchTo(isFirstBatch bool, destination []*WrappedTransaction, batchSize int) (j batchSelectionJournal)
+  requires cursor-from-previous-batch: !isFirstBatch ==> cursorOk(listForSender)
+  requires failed-selections-fit: isFirstBatch ==> listForSender.numFailedSelections.value < 9223372036854775807
+  ensures  count-bounded: 0 <= j.copied && j.copied <= len(destination) && (batchSize >= 0 ==> j.copied <= max(batchSize, 1))
+  ensures  prefix-first-batch: isFirstBatch ==> forall k :: 0 <= k && k < j.copied ==> inList(listForSender.items, walk(front(listForSender.items, listForSender.copyBatchIndex), k)) && destination[k] == itemOf(walk(front(listForSender.items, listForSender.copyBatchIndex), k))
+  ensures  continues-at-cursor: !isFirstBatch ==> forall k :: 0 <= k && k < j.copied ==> inList(listForSender.items, walk(old(listForSender.copyBatchIndex), k)) && destination[k] == itemOf(walk(old(listForSender.copyBatchIndex), k))
+  ensures  copied-are-transactions: forall k :: 0 <= k && k < j.copied ==> destination[k] != nil && destination[k].Tx != nil
+  ensures  cursor-advanced: listForSender.copyBatchIndex == walk(isFirstBatch ? front(listForSender.items, listForSender.copyBatchIndex) : old(listForSender.copyBatchIndex), j.copied)
+  ensures  no-skip: forall k :: 0 <= k && k < j.copied && walk(isFirstBatch ? front(listForSender.items, listForSender.copyBatchIndex) : old(listForSender.copyBatchIndex), k) != front(listForSender.items, listForSender.copyBatchIndex)
+                      ==> destination[k].Tx.GetNonce() <= nonceOf(prev(walk(isFirstBatch ? front(listForSender.items, listForSender.copyBatchIndex) : old(listForSender.copyBatchIndex), k))) + 1
+  ensures  cursor-kept: cursorOk(listForSender)
+  ensures  initial-gap-at-most-one: isFirstBatch && old(initialGap(listForSender)) ==> j.copied <= 1 && listForSender.copyDetectedGap && (j.copied == 1 ==> inGrace(listForSender.numFailedSelections.value))
+  ensures  gap-is-sticky: !isFirstBatch && old(listForSender.copyDetectedGap) ==> j.copied == 0 && listForSender.copyDetectedGap
+  assigns  listForSender.copyBatchIndex, listForSender.copyPreviousNonce, listForSender.copyDetectedGap, listForSender.numFailedSelections, listForSender.sweepable, elems(destination), listForSender.mutex
+
+loop 1
+  invariant 0 <= copied && copied <= len(destination) && (batchSize >= 0 ==> copied <= batchSize)
+  invariant batchSize0 >= 0 ==> 0 <= batchSize && batchSize <= max(batchSize0, 1)
+  invariant element == nil || inList(listForSender.items, element)
+  invariant element == walk(listForSender.copyBatchIndex, copied)
+  invariant element != nil && element != front(listForSender.items, element) ==> previousNonce == nonceOf(prev(element))
+  invariant forall k :: 0 <= k && k < copied ==> inList(listForSender.items, walk(listForSender.copyBatchIndex, k)) && destination[k] == itemOf(walk(listForSender.copyBatchIndex, k))
+  invariant forall k :: 0 <= k && k < copied ==> destination[k] != nil && destination[k].Tx != nil
+  invariant no-skip: forall k :: 0 <= k && k < copied && walk(listForSender.copyBatchIndex, k) != front(listForSender.items, element) ==> destination[k].Tx.GetNonce() <= nonceOf(prev(walk(listForSender.copyBatchIndex, k))) + 1
+@*/
+
+/*@
+// ---- C26: the merge over senders (doSelectTransactions) ----
+
+func (listForSender *txListForSender) getLastComputedScore() (r uint32)
+  ensures r == listForSender.lastComputedScore.value
+  assigns nothing
+
+// ASSUMPTION (pool representation): the snapshot holds distinct non-nil sender lists whose failed-selection counters are
+// not at the int64 limit; freshly allocated slice. (That each list is well-formed is the monitor invariant above.)
+func (cache *TxCache) getSendersEligibleForSelection() (r []*txListForSender)
+  ensures senders-ok: forall i :: 0 <= i && i < len(r) ==> r[i] != nil && r[i].numFailedSelections.value < 9223372036854775807
+  ensures senders-distinct: forall i, m :: 0 <= i && i < m && m < len(r) ==> r[i] != r[m]
+  ensures fresh(r)
+  assigns nothing
+  trusted
+
+// monitoring: touches only the selection statistics of the cache
+func (cache *TxCache) monitorSelectionStart() (r *core.StopWatch)
+  assigns nothing
+  trusted
+
+func (cache *TxCache) monitorSelectionEnd(selection []*WrappedTransaction, stopWatch *core.StopWatch)
+  assigns cache.numSendersSelected, cache.numSendersWithInitialGap, cache.numSendersWithMiddleGap, cache.numSendersInGracePeriod
+  trusted
+
+func (cache *TxCache) monitorBatchSelectionEnd(journal batchSelectionJournal)
+  assigns cache.numSendersSelected, cache.numSendersWithInitialGap, cache.numSendersWithMiddleGap, cache.numSendersInGracePeriod
+
+func (cache *TxCache) collectSweepable(list *txListForSender)
+  requires list != nil
+  ensures  appended-in-place-or-moved: base(cache.sweepingListOfSenders) == old(base(cache.sweepingListOfSenders)) || fresh(cache.sweepingListOfSenders)
+  assigns cache.sweepingListOfSenders, elems(cache.sweepingListOfSenders), cache.sweepingMutex
+
+func (cache *TxCache) doSelectTransactions(numRequested int, batchSizePerSender int) (r []*WrappedTransaction)
+  requires cache != nil && allocated(cache.sweepingListOfSenders)
+  requires requested-count-not-negative: numRequested >= 0
+  ensures  at-most-requested: len(r) <= numRequested
+
+loop 1
+  invariant 0 <= resultFillIndex && resultFillIndex <= numRequested && len(result) == numRequested
+  invariant resultIsFull ==> resultFillIndex == numRequested
+  invariant passes-bounded: 0 <= pass && pass <= resultFillIndex
+  invariant base(snapshotOfSenders) != base(cache.sweepingListOfSenders) && allocated(cache.sweepingListOfSenders)
+  invariant forall i :: 0 <= i && i < len(snapshotOfSenders) ==> snapshotOfSenders[i] != nil
+  invariant pass == 0 ==> forall i :: 0 <= i && i < len(snapshotOfSenders) ==> snapshotOfSenders[i].numFailedSelections.value < 9223372036854775807
+  invariant pass == 0 ==> forall i, m :: 0 <= i && i < m && m < len(snapshotOfSenders) ==> snapshotOfSenders[i] != snapshotOfSenders[m]
+  invariant pass != 0 && !resultIsFull ==> forall i :: 0 <= i && i < len(snapshotOfSenders) ==> cursorOk(snapshotOfSenders[i])
+
+loop 2
+  invariant 0 <= resultFillIndex && resultFillIndex <= numRequested && len(result) == numRequested
+  invariant -1 <= rangeindex && rangeindex < len(snapshotOfSenders)
+  invariant resultIsFull ==> resultFillIndex == numRequested
+  invariant passes-bounded: 0 <= pass && 0 <= copiedInThisPass && pass <= resultFillIndex - copiedInThisPass
+  invariant base(snapshotOfSenders) != base(cache.sweepingListOfSenders) && allocated(cache.sweepingListOfSenders)
+  invariant forall i :: 0 <= i && i < len(snapshotOfSenders) ==> snapshotOfSenders[i] != nil
+  invariant pass == 0 ==> forall i :: rangeindex < i && i < len(snapshotOfSenders) ==> snapshotOfSenders[i].numFailedSelections.value < 9223372036854775807
+  invariant pass == 0 ==> forall i, m :: 0 <= i && i < m && m < len(snapshotOfSenders) ==> snapshotOfSenders[i] != snapshotOfSenders[m]
+  invariant pass != 0 ==> forall i :: 0 <= i && i < len(snapshotOfSenders) ==> cursorOk(snapshotOfSenders[i])
+  invariant pass == 0 ==> forall i :: 0 <= i && i <= rangeindex ==> cursorOk(snapshotOfSenders[i])
+@*/
+
+/*@
+// ================= C25: transaction pool indexes stay consistent (per-sender list) =================
+
+
+// tx may be placed right after p / right before s
+spec fn goesAfter(tx *WrappedTransaction, p *list.Element) bool = nonceOf(p) < tx.Tx.GetNonce() || (nonceOf(p) == tx.Tx.GetNonce() && gasPriceOf(p) > tx.Tx.GetGasPrice())
+spec fn goesBefore(tx *WrappedTransaction, s *list.Element) bool = tx.Tx.GetNonce() < nonceOf(s) || (tx.Tx.GetNonce() == nonceOf(s) && tx.Tx.GetGasPrice() >= gasPriceOf(s))
+
+func (wrappedTx *WrappedTransaction) sameAs(another *WrappedTransaction) (r bool)
+  requires wrappedTx != nil && another != nil
+  ensures  r == (str(wrappedTx.TxHash) == str(another.TxHash))
+  assigns  nothing
+
+func (listForSender *txListForSender) findInsertionPlace(incomingTx *WrappedTransaction) (r *list.Element, err error)
+  requires senderListOk(listForSender)
+  requires incomingTx != nil && incomingTx.Tx != nil
+  ensures  duplicate-rejected: err != nil ==> r == nil && err == storage.ErrItemAlreadyInCache && (exists e *list.Element :: inList(listForSender.items, e) && (str(incomingTx.TxHash) == str(itemOf(e).TxHash)))
+  ensures  place-in-list: err == nil && r != nil ==> inList(listForSender.items, r) && goesAfter(incomingTx, r)
+  ensures  successor-not-smaller: err == nil && r != nil && next(r) != owner(r) ==> goesBefore(incomingTx, next(r)) && (str(incomingTx.TxHash) != str(itemOf(next(r)).TxHash))
+  ensures  head-place: err == nil && r == nil && front(listForSender.items, r) != nil ==> goesBefore(incomingTx, front(listForSender.items, r)) && (str(incomingTx.TxHash) != str(itemOf(front(listForSender.items, r)).TxHash))
+  ensures  place-not-duplicate: err == nil && r != nil ==> (str(incomingTx.TxHash) != str(itemOf(r).TxHash))
+  assigns  nothing
+
+loop 1
+  invariant element == nil || inList(listForSender.items, element)
+  invariant element != nil && next(element) != owner(element) ==> goesBefore(incomingTx, next(element))
+  invariant element != nil && next(element) != owner(element) ==> (str(incomingTx.TxHash) != str(itemOf(next(element)).TxHash))
+  invariant element == nil && front(listForSender.items, element) != nil ==> goesBefore(incomingTx, front(listForSender.items, element))
+  invariant element == nil && front(listForSender.items, element) != nil ==> (str(incomingTx.TxHash) != str(itemOf(front(listForSender.items, element)).TxHash))
+@*/
+
+/*@
+// ---- C25: counters move by exactly the size of the transaction; per-sender limits ----
+
+func (tx data.TransactionHandler) GetGasLimit() (r uint64)
+  pure
+
+spec fn fitsInt64(x int) bool = -9223372036854775808 <= x && x <= 9223372036854775807
+spec fn capacityExceeded(ls *txListForSender) bool = ls.totalBytes.value > ls.constraints.maxNumBytes || llen(ls.items) > ls.constraints.maxNumTxs
+
+func (listForSender *txListForSender) countTx() (r uint64)
+  requires listForSender.items != nil && wfList(listForSender.items) && llen(listForSender.items) <= 9223372036854775807
+  ensures  r == llen(listForSender.items)
+  assigns  nothing
+
+func (listForSender *txListForSender) isCapacityExceeded() (r bool)
+  requires listForSender.items != nil && wfList(listForSender.items) && llen(listForSender.items) <= 9223372036854775807 && listForSender.constraints != nil
+  ensures  r == capacityExceeded(listForSender)
+  assigns  nothing
+
+func estimateTxGas(tx *WrappedTransaction) (r uint64)
+  requires tx != nil && tx.Tx != nil
+  ensures  r == tx.Tx.GetGasLimit()
+  assigns  nothing
+
+// fee score: arithmetic over collaborator answers (interfaces, float factor); only its frame matters here
+func estimateTxFeeScore(tx *WrappedTransaction, txGasHandler TxGasHandler, txFeeHelper feeHelper) (r uint64)
+  assigns tx.TxFeeScoreNormalized
+  trusted
+
+func (listForSender *txListForSender) onAddedTransaction(tx *WrappedTransaction, gasHandler TxGasHandler, txFeeHelper feeHelper)
+  requires tx != nil && tx.Tx != nil
+  ensures  bytes-added-exactly: fitsInt64(old(listForSender.totalBytes.value) + tx.Size) ==> listForSender.totalBytes.value == old(listForSender.totalBytes.value) + tx.Size
+  assigns  listForSender.totalBytes, listForSender.totalGas, listForSender.totalFeeScore, tx.TxFeeScoreNormalized
+
+func (listForSender *txListForSender) onRemovedListElement(element *list.Element)
+  requires element != nil && holdsTx(element)
+  ensures  bytes-removed-exactly: fitsInt64(old(listForSender.totalBytes.value) - itemOf(element).Size) && itemOf(element).Size > -9223372036854775808 ==> listForSender.totalBytes.value == old(listForSender.totalBytes.value) - itemOf(element).Size
+  assigns  listForSender.totalBytes, listForSender.totalGas, listForSender.totalFeeScore
+@*/
+
+/*@
+// ---- C25: AddTx / eviction by the per-sender limits / RemoveTx ----
+
+// score notification: callback into the sender map (score chunks of the bucket-sorted map): touches only score bookkeeping
+func (listForSender *txListForSender) triggerScoreChange()
+  assigns listForSender.lastComputedScore, listForSender.scoreChunk, listForSender.scoreChunkMutex
+  trusted
+
+func (listForSender *txListForSender) applySizeConstraints() (r [][]byte)
+  requires list-ok: senderListOk(listForSender)
+  requires sorted: sortedList(listForSender)
+  requires listForSender.constraints != nil
+  ensures  list-stays-ok: senderListOk(listForSender) && sortedList(listForSender)
+  ensures  limits-hold: !capacityExceeded(listForSender) || llen(listForSender.items) == 0
+  ensures  only-removes: forall e *list.Element :: inList(listForSender.items, e) ==> old(inList(listForSender.items, e))
+  ensures  nothing-evicted-within-limits: old(!capacityExceeded(listForSender)) ==> len(r) == 0
+  ensures  no-eviction-no-change: len(r) == 0 ==> llen(listForSender.items) == old(llen(listForSender.items)) && listForSender.totalBytes.value == old(listForSender.totalBytes.value) && (forall e *list.Element :: old(inList(listForSender.items, e)) ==> inList(listForSender.items, e))
+  assigns  listForSender.totalBytes, listForSender.totalGas, listForSender.totalFeeScore, listof(listForSender.items)
+
+loop 1
+  invariant senderListOk(listForSender) && sortedList(listForSender)
+  invariant element == nil || inList(listForSender.items, element)
+  invariant walks-from-the-back: element == back(listForSender.items, element)
+  invariant len(evictedTxHashes) >= 0 && fresh(evictedTxHashes)
+  invariant forall e *list.Element :: inList(listForSender.items, e) ==> old(inList(listForSender.items, e))
+  invariant len(evictedTxHashes) == 0 ==> llen(listForSender.items) == old(llen(listForSender.items)) && listForSender.totalBytes.value == old(listForSender.totalBytes.value) && (forall e *list.Element :: old(inList(listForSender.items, e)) ==> inList(listForSender.items, e))
+  invariant old(!capacityExceeded(listForSender)) ==> len(evictedTxHashes) == 0
+
+func (listForSender *txListForSender) findListElementWithTx(txToFind *WrappedTransaction) (r *list.Element)
+  requires senderListOk(listForSender) && txToFind != nil && txToFind.Tx != nil
+  ensures  found-has-the-hash: r != nil ==> inList(listForSender.items, r) && (str(itemOf(r).TxHash) == str(txToFind.TxHash))
+  assigns  nothing
+
+loop 1
+  invariant element == nil || inList(listForSender.items, element)
+
+func (listForSender *txListForSender) AddTx(tx *WrappedTransaction, gasHandler TxGasHandler, txFeeHelper feeHelper) (added bool, evicted [][]byte)
+  requires tx != nil && tx.Tx != nil && listForSender.constraints != nil
+  requires count-fits-int: llen(listForSender.items) < 9223372036854775807
+  ensures  rejected-changes-nothing: !added ==> llen(listForSender.items) == old(llen(listForSender.items)) && listForSender.totalBytes.value == old(listForSender.totalBytes.value) && len(evicted) == 0
+  ensures  limits-hold-after-add: added ==> !capacityExceeded(listForSender) || llen(listForSender.items) == 0
+  ensures  added-without-eviction: added && len(evicted) == 0 ==> llen(listForSender.items) == old(llen(listForSender.items)) + 1 && (fitsInt64(old(listForSender.totalBytes.value) + tx.Size) ==> listForSender.totalBytes.value == old(listForSender.totalBytes.value) + tx.Size)
+  assigns  listForSender.totalBytes, listForSender.totalGas, listForSender.totalFeeScore, listof(listForSender.items), tx.TxFeeScoreNormalized, listForSender.lastComputedScore, listForSender.scoreChunk, listForSender.scoreChunkMutex, listForSender.mutex
+
+func (listForSender *txListForSender) RemoveTx(tx *WrappedTransaction) (r bool)
+  requires tx != nil && tx.Tx != nil
+  ensures  removed-one: r ==> llen(listForSender.items) == old(llen(listForSender.items)) - 1
+  ensures  removed-has-the-hash: r ==> exists e *list.Element :: old(inList(listForSender.items, e)) && !inList(listForSender.items, e) && (str(itemOf(e).TxHash) == str(tx.TxHash)) && (fitsInt64(old(listForSender.totalBytes.value) - itemOf(e).Size) && itemOf(e).Size > -9223372036854775808 ==> listForSender.totalBytes.value == old(listForSender.totalBytes.value) - itemOf(e).Size)
+  ensures  not-found-changes-nothing: !r ==> llen(listForSender.items) == old(llen(listForSender.items)) && listForSender.totalBytes.value == old(listForSender.totalBytes.value)
+  assigns  listForSender.totalBytes, listForSender.totalGas, listForSender.totalFeeScore, listof(listForSender.items), listForSender.lastComputedScore, listForSender.scoreChunk, listForSender.scoreChunkMutex, listForSender.mutex
+@*/
+
+/*@
+// ---- C25: hash index: counters move by exactly one transaction / its size, together with the map ----
+
+// (same definitions as cmOk / chunkFor in storage/txcache/maps/contracts_verif.go: spec fns are per package)
+spec fn cmOk(m *maps.ConcurrentMap) bool = m != nil && m.nChunks > 0 && len(m.chunks) == m.nChunks && (forall i :: 0 <= i && i < len(m.chunks) ==> m.chunks[i] != nil && m.chunks[i].items != nil)
+spec fn hashIndexOk(txMap *txByHashMap) bool = txMap.backingMap != nil && cmOk(txMap.backingMap)
+spec fn indexed(txMap *txByHashMap, hash string) bool = has(txMap.backingMap.chunks[maps.fnv32(hash) % txMap.backingMap.nChunks].items, hash)
+
+spec fn valueAt(txMap *txByHashMap, hash string) interface{} = txMap.backingMap.chunks[maps.fnv32(hash) % txMap.backingMap.nChunks].items[hash]
+spec fn holdsTxAt(txMap *txByHashMap, hash string) bool = typeIs(valueAt(txMap, hash), ptr_WrappedTransaction) && payload(valueAt(txMap, hash), ptr_WrappedTransaction) != nil
+
+func (txMap *txByHashMap) addTx(tx *WrappedTransaction) (added bool)
+  requires hashIndexOk(txMap) && tx != nil
+  requires counter-fits-int64: txMap.counter.value < 9223372036854775807
+  ensures  added-iff-new-hash: added == !old(indexed(txMap, str(tx.TxHash)))
+  ensures  found-by-hash-afterwards: indexed(txMap, str(tx.TxHash))
+  ensures  stores-the-transaction: added ==> holdsTxAt(txMap, str(tx.TxHash)) && payload(valueAt(txMap, str(tx.TxHash)), ptr_WrappedTransaction) == tx
+  ensures  count-by-delta: txMap.counter.value == old(txMap.counter.value) + (added ? 1 : 0)
+  ensures  bytes-by-delta: fitsInt64(old(txMap.numBytes.value) + tx.Size) ==> txMap.numBytes.value == old(txMap.numBytes.value) + (added ? tx.Size : 0)
+  ensures  hashIndexOk(txMap)
+
+func (txMap *txByHashMap) removeTx(txHash string) (tx *WrappedTransaction, ok bool)
+  requires hashIndexOk(txMap)
+  requires stored-values-are-transactions: indexed(txMap, txHash) ==> holdsTxAt(txMap, txHash)
+  requires counter-fits-int64: txMap.counter.value > -9223372036854775808
+  ensures  not-found-by-hash-afterwards: !indexed(txMap, txHash)
+  ensures  absent-changes-nothing: !old(indexed(txMap, txHash)) ==> !ok && txMap.counter.value == old(txMap.counter.value) && txMap.numBytes.value == old(txMap.numBytes.value)
+  ensures  count-by-delta: txMap.counter.value == old(txMap.counter.value) - (ok ? 1 : 0)
+  ensures  bytes-by-delta: ok && tx.Size > -9223372036854775808 && fitsInt64(old(txMap.numBytes.value) - tx.Size) ==> txMap.numBytes.value == old(txMap.numBytes.value) - tx.Size
+  ensures  returns-the-indexed: ok ==> tx != nil && old(indexed(txMap, txHash)) && tx == old(payload(valueAt(txMap, txHash), ptr_WrappedTransaction))
+  ensures  hashIndexOk(txMap)
+@*/
+
+/*@
+// ---- C25: sender index: the sender counter moves by exactly one per added / removed sender ----
+func newTxListForSender(sender string, constraints *senderConstraints, onScoreChange scoreChangeCallback) (r *txListForSender)
+  ensures fresh(r) && r.items != nil && llen(r.items) == 0 && r.sender == sender && r.constraints == constraints
+  assigns nothing
+
+// (txListBySenderMap.addSender is outside the verifier's subset: it passes the interior pointer &txMap.senderConstraints)
+
+func (txMap *txListBySenderMap) removeSender(sender string) (removed bool)
+  requires txMap.backingMap != nil
+  requires counter-fits-int64: txMap.counter.value > -9223372036854775808
+  ensures  sender-count-by-delta: txMap.counter.value == old(txMap.counter.value) - (removed ? 1 : 0)
+  assigns  txMap.counter, txMap.backingMap.mutex
+@*/
